@@ -15,7 +15,7 @@ _COMMON = ["sandbox_noninterference", "sandbox_only_safe_calls", "unsafe_native_
            "model_native_obs_meets_spec", "translator_covers_model_kinds", "call_and_field_checks_present",
            "safe_callback_invokers_checked", "reference_paths_cannot_write", "documented_guards_present"]
 _KNOWN = ["all_mutating_nodes_guarded_partial", "setconst_counterexample", "sandbox_noninterference_repaired"]
-_FIXED = ["all_mutating_nodes_guarded", "sandbox_noninterference_pinned"]
+_FIXED = ["all_mutating_nodes_guarded", "sandbox_noninterference_pinned", "setconst_guard_is_necessary"]
 
 
 def _setconst_known():
@@ -52,7 +52,7 @@ class C19(Check):
                   "tables predicts outcome class and changed-bit, and the spec predicate is evaluated on the implementation's observations")
     level_note = ("Trusted: Lean kernel (+ propext, Classical.choice, Quot.sound), the translator's regexes (anchors lost => tie broken), harness/driver. "
                   "Not modelled: the semantics of individual natives (parameters; 'flagged safe => pure' is an assumption exercised by snapshot diffing), "
-                  "value-level semantics of the full DSL (containers hold strings), parsing. Known on the pinned tree: F-C19a (const in a sandbox), "
+                  "value-level semantics of the full DSL (containers hold strings), parsing. F-C19a (const in a sandbox) was repaired by 03364e3; known: "
                   "F-C19b (sandboxed console serialises hidden fields of a returned object).")
     trusted_base = [
         "gen/c19_sandbox_guards.py (anchored regexes + brace matching over expression.cpp, vmops.hpp, object.cpp, scriptframe.cpp and the native registrations)",
